@@ -108,10 +108,15 @@ func VerifH_C19_RoundTrip() {
 		return
 	}
 	var kids []datanode.DataNode
+	c0Controls := false
 	group := vrt.Choice("group", 6)
 	switch group {
 	case 0: // strings needing escaping, booleans, empty leaves
-		kids = append(kids, leafNode("s", []string{"plain", "q\"uo\\te\n", "é世"}[vrt.Choice("s", 3)]))
+		// (DEL, a private-use character beyond the BMP and C0 controls: legal in a YANG
+		// string; the controls have no XML 1.0 representation and are left to JSON)
+		sv := vrt.Choice("s", 6)
+		kids = append(kids, leafNode("s", []string{"plain", "q\"uo\\te\n", "é世", "a\x7fb", "\U000f0000z", "\x01\x1f\b\f\v"}[sv]))
+		c0Controls = sv == 5
 		kids = append(kids, leafNode("b", []string{"true", "false"}[vrt.Choice("b", 2)]))
 		if vrt.Bool("e") {
 			kids = append(kids, leafNode("e", "")) // the form every decoder produces for an empty leaf
@@ -157,6 +162,10 @@ func VerifH_C19_RoundTrip() {
 	tree := datanode.CreateDataNode("root", []datanode.DataNode{datanode.CreateDataNode("top", kids, nil)}, nil)
 	want := c19Canon(tree)
 	enc := vrt.Choice("encoding", vrt.Param("encodings", 3))
+	if c0Controls && enc == 2 {
+		vrt.Reach("c19.roundtrip.c0-controls-not-representable-in-xml")
+		return
+	}
 	var bytes []byte
 	var back datanode.DataNode
 	var derr error
